@@ -144,19 +144,19 @@ def build():
     ensures r matches Ok(v) ==> v@ == crate::openssl::pkey::public_pem(self.inner_key.ident@), //@C15.public_key_pem_is_of_this_key,C11.public_key_pem_is_of_this_key
 """)})
     u.verify(K, "gen_rsa_pair", "crypto", props=["C15"], fns={"gen_rsa_pair": FnSpec(ret="r", sig="""
-    ensures r matches Ok(k) ==> k.kind@ == (crate::openssl::pkey::KeyKind { id: Id::RSA, rsa_size: nb_bits / 8, curve: None }), //@C15.generated_key_has_requested_type
+    ensures r matches Ok(k) ==> k.kind@ == (crate::openssl::pkey::KeyKind { id: Id::RSA, rsa_size: nb_bits / 8, curve: None }), //@C15.generated_key_has_requested_type,C11.generated_key_has_requested_type,C02.generated_key_has_requested_type
 """)})
     u.verify(K, "gen_ec_pair", "crypto", props=["C15"], fns={"gen_ec_pair": FnSpec(ret="r", sig="""
-    ensures r matches Ok(k) ==> k.kind@ == (crate::openssl::pkey::KeyKind { id: Id::EC, rsa_size: 0, curve: Some(nid) }), //@C15.generated_key_has_requested_type
+    ensures r matches Ok(k) ==> k.kind@ == (crate::openssl::pkey::KeyKind { id: Id::EC, rsa_size: 0, curve: Some(nid) }), //@C15.generated_key_has_requested_type,C11.generated_key_has_requested_type,C02.generated_key_has_requested_type
 """)})
     u.verify(K, "gen_ed25519_pair", "crypto", props=["C15"], fns={"gen_ed25519_pair": FnSpec(ret="r", sig="""
-    ensures r matches Ok(k) ==> k.kind@ == (crate::openssl::pkey::KeyKind { id: Id::ED25519, rsa_size: 0, curve: None }), //@C15.generated_key_has_requested_type
+    ensures r matches Ok(k) ==> k.kind@ == (crate::openssl::pkey::KeyKind { id: Id::ED25519, rsa_size: 0, curve: None }), //@C15.generated_key_has_requested_type,C11.generated_key_has_requested_type,C02.generated_key_has_requested_type
 """)})
     u.verify(K, "gen_ed448_pair", "crypto", props=["C15"], fns={"gen_ed448_pair": FnSpec(ret="r", sig="""
-    ensures r matches Ok(k) ==> k.kind@ == (crate::openssl::pkey::KeyKind { id: Id::ED448, rsa_size: 0, curve: None }), //@C15.generated_key_has_requested_type
+    ensures r matches Ok(k) ==> k.kind@ == (crate::openssl::pkey::KeyKind { id: Id::ED448, rsa_size: 0, curve: None }), //@C15.generated_key_has_requested_type,C11.generated_key_has_requested_type,C02.generated_key_has_requested_type
 """)})
     u.verify(K, "gen_keypair", "crypto", props=["C15"], fns={"gen_keypair": FnSpec(ret="r", sig="""
-    ensures r matches Ok(k) ==> k.wf() && k.key_type == key_type, //@C15.generated_key_has_requested_type
+    ensures r matches Ok(k) ==> k.wf() && k.key_type == key_type, //@C15.generated_key_has_requested_type,C11.generated_key_has_requested_type,C02.generated_key_has_requested_type
 """)})
     return u
 
